@@ -207,9 +207,20 @@ func ruleListRemove(c *Ctx, r *R) {
 		return
 	}
 	node := fn.Params[1]
-	// typestate bits: 1 = unlinked (remove called), 2 = prev nil'ed, 4 = next nil'ed
-	pf := &PF{N: 8}
+	// typestate bits: 1 = unlinked (remove called), 2 = prev nil'ed, 4 = next nil'ed; where the unlinking is written out in
+	// Remove itself, 8 = predecessor side repaired, 16 = successor side repaired, and both together are "unlinked"
+	pf := &PF{N: 32}
+	inlineUnlink := c.fn("container/xlist.List.remove") == nil
 	pf.Instr = func(f *ssa.Function, in ssa.Instruction, q int) (StateSet, bool) {
+		if st, ok := in.(*ssa.Store); ok && inlineUnlink && f == fn {
+			if side := unlinkRepairSide(fn, f, st); side != 0 {
+				nq := q | side<<3
+				if nq&24 == 24 {
+					nq |= 1
+				}
+				return ss(nq), true
+			}
+		}
 		switch x := in.(type) {
 		case *ssa.Call:
 			if cal := staticCallee(&x.Call); cal != nil && fname(cal) == "remove" && len(x.Call.Args) == 2 && (x.Call.Args[1] == ssa.Value(node) || x.Call.Args[0] == ssa.Value(node)) {
@@ -253,14 +264,37 @@ func ruleListRemove(c *Ctx, r *R) {
 		return 0, false
 	}
 	good := true
+	early := false
+	if inlineUnlink {
+		// the splice needs the node's own links: they are written only once both sides are repaired
+		pf.Visit = func(f *ssa.Function, in ssa.Instruction, before StateSet) {
+			if st, ok := in.(*ssa.Store); ok && f == fn {
+				if fa, ok := st.Addr.(*ssa.FieldAddr); ok && fa.X == ssa.Value(node) {
+					before.each(func(q int) {
+						if q&1 == 0 {
+							early = true
+						}
+					})
+				}
+			}
+		}
+	}
 	for _, e := range pf.Exits(fn, ss(0)) {
-		if e.States != ss(7) {
+		e.States.each(func(q int) {
+			if q&7 != 7 {
+				good = false
+			}
+		})
+		if e.States == 0 {
 			good = false
 		}
 	}
 	r.ok(good, "xlist.List.Remove|isolates-node", fn.Pos(), "Remove must unlink the node and then clear both its prev and next on every path")
 	// remove() itself never writes node.prev/node.next of the removed node (it needs them to splice)
 	rm := c.fn("container/xlist.List.remove")
+	if inlineUnlink {
+		r.ok(!early, "xlist.List.Remove|keeps-node-links", fn.Pos(), "the node's own links are modified before both its neighbours are repaired (the splice reads them)")
+	}
 	if rm != nil {
 		touches := false
 		instrs(rm, func(b *ssa.BasicBlock, i int, in ssa.Instruction) {
@@ -437,7 +471,31 @@ func ruleListLinkPairing(c *Ctx, r *R) {
 			}
 			good := false
 			why := "the store is not under a test of l." + f
-			for _, g := range guardsOf(b) {
+			gs := guardsOf(b)
+			// the ends worked on in locals and written back once (front, back := l.front, l.back; ...; if back == nil { back =
+			// node }; l.front, l.back = front, back): the store writes the old value back except on the edges that bring another
+			// one - the tests that lead to those edges are the tests the change is made under
+			if phi, isPhi := st.Val.(*ssa.Phi); isPhi {
+				unchanged := false
+				var changing []int
+				for ei, e := range phi.Edges {
+					if ld, isLd := e.(*ssa.UnOp); isLd && ld.Op == token.MUL && path(ld) == "l."+f {
+						unchanged = true
+					} else {
+						changing = append(changing, ei)
+					}
+				}
+				if unchanged && len(changing) == 1 {
+					pb := phi.Block().Preds[changing[0]]
+					gs = append(append([]guard{}, guardsOf(pb)...), edgeGuard(pb, phi.Block())...)
+					if len(pb.Instrs) > 0 {
+						if _, isJump := pb.Instrs[len(pb.Instrs)-1].(*ssa.Jump); isJump {
+							gs = append(gs, guardsOfSelf(pb)...)
+						}
+					}
+				}
+			}
+			for _, g := range gs {
 				cf, ok := g.asCmp()
 				if !ok || cf.op != token.EQL {
 					continue
@@ -502,67 +560,58 @@ var _ = late(func() {
 func ruleListUnlinkBothSides(c *Ctx, r *R) {
 	fn := c.fn("container/xlist.List.remove")
 	if fn == nil {
-		r.undecided("xlist.List.remove|missing", token.NoPos, "anchor not found")
-		return
-	}
-	// the places a store can write to: the address itself, or - `*l.forwardLink(node) = …` - each address the in-package helper
-	// can return (in the caller's terms)
-	alternatives := func(addr ssa.Value) []string {
-		if call, ok := addr.(*ssa.Call); ok {
-			if cal := staticCallee(&call.Call); cal != nil && cal.Blocks != nil && rootFn(cal).Pkg == rootFn(fn).Pkg {
-				var out []string
-				for _, rv := range returnedBy(cal, 0) {
-					out = append(out, addrProv(rv, provEnv{chain: []*ssa.Call{call}}).String())
-				}
-				return out
+		// the unlinking written out in the methods that need it (Remove, MoveBefore, MoveAfter): each of them is judged like
+		// remove - a path on which one side is repaired has the other repaired too - and a path through Remove repairs both
+		found := false
+		for _, n := range []string{"Remove", "MoveBefore", "MoveAfter"} {
+			host := c.fn("container/xlist.List." + n)
+			if host == nil {
+				continue
 			}
+			pkgL := host.Pkg
+			pf := &PF{N: 4, InScope: func(f *ssa.Function) bool { return unlinkHelperOf(host, f, pkgL) }}
+			any := false
+			pf.Instr = func(f *ssa.Function, in ssa.Instruction, q int) (StateSet, bool) {
+				if st, ok := in.(*ssa.Store); ok {
+					if side := unlinkRepairSide(host, f, st); side != 0 {
+						any = true
+						return ss(q | side), true
+					}
+				}
+				return 0, false
+			}
+			good, some := true, false
+			pos := host.Pos()
+			for _, e := range pf.Exits(host, ss(0)) {
+				if e.States.has(1) || e.States.has(2) || (n == "Remove" && e.States != ss(3)) {
+					good = false
+					pos = retPos(e.Ret)
+				}
+				if e.States.has(3) {
+					some = true
+				}
+			}
+			if !any {
+				continue
+			}
+			found = true
+			r.ok(good && some, "xlist.List."+n+"|both-sides", pos, "a path through "+n+" leaves one side of the unlinked node un-repaired: the surviving neighbour (or the list end) still points at the node, so one of the two walks visits it where it was")
 		}
-		return []string{addrProv(addr, provEnv{}).String()}
+		if !found {
+			r.undecided("xlist.List.remove|missing", token.NoPos, "anchor not found")
+		}
+		return
 	}
 	pkgL := fn.Pkg
 	// helpers of the same shape (receiver, node) that remove is split into are followed (bypassForward / bypassBackward)
-	pf := &PF{N: 4, InScope: func(f *ssa.Function) bool {
-		sameT := func(a, b types.Type) bool {
-			return types.Identical(origType(derefType(a)), origType(derefType(b)))
-		}
-		if !(rootFn(origin(f)).Pkg == pkgL && f.Blocks != nil && origin(f) != fn && len(f.Params) == 2) {
-			return false
-		}
-		l0, n0 := listAndNode(fn)
-		l1, n1 := listAndNode(f)
-		return l0 != nil && n0 != nil && l1 != nil && n1 != nil && sameT(l0.Type(), l1.Type()) && sameT(n0.Type(), n1.Type())
-	}} // bit0 = predecessor side repaired, bit1 = successor side repaired
+	pf := &PF{N: 4, InScope: func(f *ssa.Function) bool { return unlinkHelperOf(fn, f, pkgL) }} // bit0 = predecessor side repaired, bit1 = successor side repaired
 	pf.Instr = func(f *ssa.Function, in ssa.Instruction, q int) (StateSet, bool) {
 		st, ok := in.(*ssa.Store)
 		if !ok {
 			return 0, false
 		}
-		lp, np := listAndNode(f)
-		if lp == nil || np == nil {
-			return 0, false
-		}
-		l, node := "param:"+pname(lp), "param:"+pname(np)
-		alts := alternatives(st.Addr)
-		vp := valueProv(st.Val, provEnv{}).String()
-		allIn := func(set ...string) bool {
-			for _, a := range alts {
-				found := false
-				for _, s := range set {
-					if a == s {
-						found = true
-					}
-				}
-				if !found {
-					return false
-				}
-			}
-			return len(alts) > 0
-		}
-		switch {
-		case allIn(l+".front", node+".prev.next") && (vp == node+".next" || (vp == l+".front.next" && allIn(l+".front"))):
-			return ss(q | 1), true
-		case allIn(l+".back", node+".next.prev") && (vp == node+".prev" || (vp == l+".back.prev" && allIn(l+".back"))):
-			return ss(q | 2), true
+		if side := unlinkRepairSide(fn, f, st); side != 0 {
+			return ss(q | side), true
 		}
 		return 0, false
 	}
@@ -579,6 +628,67 @@ func ruleListUnlinkBothSides(c *Ctx, r *R) {
 		pos = retPos(bad)
 	}
 	r.ok(good, "xlist.List.remove|both-sides", pos, "a path through remove leaves one side of the removed node un-repaired: the surviving neighbour (or the list end) still points at the removed node, so one of the two walks visits it")
+}
+
+// unlinkHelperOf: f is a helper of the same shape (list, node) in the list's package that host's unlinking is split into.
+func unlinkHelperOf(host, f *ssa.Function, pkgL *ssa.Package) bool {
+	sameT := func(a, b types.Type) bool {
+		return types.Identical(origType(derefType(a)), origType(derefType(b)))
+	}
+	if !(rootFn(origin(f)).Pkg == pkgL && f.Blocks != nil && origin(f) != host && len(f.Params) == 2) {
+		return false
+	}
+	l0, n0 := listAndNode(host)
+	l1, n1 := listAndNode(f)
+	return l0 != nil && n0 != nil && l1 != nil && n1 != nil && sameT(l0.Type(), l1.Type()) && sameT(n0.Type(), n1.Type())
+}
+
+// unlinkRepairSide: the store st in f repairs the predecessor side (1: l.front moved on, or node.prev.next = node.next) or
+// the successor side (2: l.back moved back, or node.next.prev = node.prev) of the node f unlinks; 0 otherwise. host is the
+// function the walk started in (helpers in its package that hand out the address written to are looked through).
+func unlinkRepairSide(host, f *ssa.Function, st *ssa.Store) int {
+	// the places a store can write to: the address itself, or - `*l.forwardLink(node) = …` - each address the in-package helper
+	// can return (in the caller's terms)
+	alternatives := func(addr ssa.Value) []string {
+		if call, ok := addr.(*ssa.Call); ok {
+			if cal := staticCallee(&call.Call); cal != nil && cal.Blocks != nil && rootFn(cal).Pkg == rootFn(host).Pkg {
+				var out []string
+				for _, rv := range returnedBy(cal, 0) {
+					out = append(out, addrProv(rv, provEnv{chain: []*ssa.Call{call}}).String())
+				}
+				return out
+			}
+		}
+		return []string{addrProv(addr, provEnv{}).String()}
+	}
+	lp, np := listAndNode(f)
+	if lp == nil || np == nil {
+		return 0
+	}
+	l, node := "param:"+pname(lp), "param:"+pname(np)
+	alts := alternatives(st.Addr)
+	vp := valueProv(st.Val, provEnv{}).String()
+	allIn := func(set ...string) bool {
+		for _, a := range alts {
+			found := false
+			for _, s := range set {
+				if a == s {
+					found = true
+				}
+			}
+			if !found {
+				return false
+			}
+		}
+		return len(alts) > 0
+	}
+	switch {
+	case allIn(l+".front", node+".prev.next") && (vp == node+".next" || (vp == l+".front.next" && allIn(l+".front"))):
+		return 1
+	case allIn(l+".back", node+".next.prev") && (vp == node+".prev" || (vp == l+".back.prev" && allIn(l+".back"))):
+		return 2
+	}
+	return 0
 }
 
 func touchesLinks(fn *ssa.Function) bool {
